@@ -4,6 +4,7 @@ import (
 	"flag"
 	"fmt"
 	"os"
+	"os/exec"
 	"path/filepath"
 	"sort"
 	"strings"
@@ -270,7 +271,6 @@ func aggregate(obls []*Obligation) map[string]*aggObl {
 }
 
 func cmdList(args []string) int     { fmt.Println("not implemented"); return 0 }
-func cmdSelftest(args []string) int { fmt.Println("not implemented"); return 0 }
 func cmdReplay(args []string) int   { fmt.Println("not implemented"); return 0 }
 
 
@@ -338,4 +338,102 @@ func substIdent(e Expr, name string, by Expr) Expr {
 		return &ECond{substIdent(x.C, name, by), substIdent(x.A, name, by), substIdent(x.B, name, by)}
 	}
 	return e
+}
+
+
+// selftest: the must-fail corpus. Every mutants/<prop>/<name>.patch must make
+// `check -p <prop>` report a violation; noalarm-*.patch must stay green.
+func cmdSelftest(args []string) int {
+	fs := flag.NewFlagSet("selftest", flag.ExitOnError)
+	prop := fs.String("p", "", "only this property")
+	par := fs.Int("j", 4, "parallel checks")
+	dir := fs.String("dir", "", "mutant directory (default <root>/mutants)")
+	fs.Parse(args)
+	root := verifRoot()
+	mdir := *dir
+	if mdir == "" {
+		mdir = filepath.Join(root, "mutants")
+	}
+	type job struct{ prop, file string }
+	var jobs []job
+	props, _ := loadProps()
+	ents, _ := os.ReadDir(mdir)
+	for _, e := range ents {
+		if !e.IsDir() || (*prop != "" && e.Name() != *prop) {
+			continue
+		}
+		if _, ok := props[e.Name()]; !ok {
+			continue
+		}
+		fs2, _ := os.ReadDir(filepath.Join(mdir, e.Name()))
+		for _, f := range fs2 {
+			if strings.HasSuffix(f.Name(), ".patch") || strings.HasSuffix(f.Name(), ".diff") {
+				jobs = append(jobs, job{e.Name(), filepath.Join(mdir, e.Name(), f.Name())})
+			}
+		}
+	}
+	exe, _ := os.Executable()
+	type res struct {
+		j    job
+		out  string
+		code int
+	}
+	results := make([]res, len(jobs))
+	sem := make(chan struct{}, *par)
+	done := make(chan int, len(jobs))
+	for i, j := range jobs {
+		i, j := i, j
+		go func() {
+			sem <- struct{}{}
+			defer func() { <-sem; done <- i }()
+			cmd := exec.Command(exe, "check", "-p", j.prop, "-mutant", j.file, "-no-evidence")
+			out, err := cmd.CombinedOutput()
+			code := 0
+			if err != nil {
+				if ee, ok := err.(*exec.ExitError); ok {
+					code = ee.ExitCode()
+				} else {
+					code = 99
+				}
+			}
+			results[i] = res{j, string(out), code}
+		}()
+	}
+	for range jobs {
+		<-done
+	}
+	bad := 0
+	for _, r := range results {
+		name := filepath.Base(r.j.file)
+		wantAlarm := !strings.HasPrefix(name, "noalarm-")
+		gotAlarm := r.code == 1 && strings.Contains(r.out, "VIOLATION")
+		status := "ok"
+		if r.code != 0 && r.code != 1 {
+			status = "ERROR"
+			bad++
+		} else if wantAlarm != gotAlarm {
+			status = "MISMATCH"
+			bad++
+		}
+		var obl []string
+		for _, l := range strings.Split(r.out, "\n") {
+			if strings.HasPrefix(l, "VIOLATION") {
+				p := l[strings.Index(l, "replay=")+7:]
+				p = strings.TrimSuffix(strings.Fields(p)[0], ".json")
+				obl = append(obl, filepath.Base(p))
+			}
+		}
+		if len(obl) > 3 {
+			obl = append(obl[:3], fmt.Sprintf("...+%d", len(obl)-3))
+		}
+		fmt.Printf("%-8s %s %-45s alarm=%v %s\n", status, r.j.prop, name, gotAlarm, strings.Join(obl, " "))
+		if status == "ERROR" {
+			fmt.Println(truncate(r.out, 600))
+		}
+	}
+	fmt.Printf("selftest: %d mutants, %d problems\n", len(jobs), bad)
+	if bad > 0 {
+		return 1
+	}
+	return 0
 }
